@@ -163,6 +163,7 @@ class Explorer:
         # default value of a (record, field) when the store has no entry for
         # the location read (lets a rule model "every such field holds X")
         self.field_values = dict(field_values or {})
+        self.null_derefs = []
         self._ro_cache = {}
         self.syms = {}          # symbol -> (lo, hi)
         self.on_call = on_call  # on_call(ex, st, f, node, callee, args): observe every call
@@ -509,6 +510,15 @@ class Explorer:
                 elif k == "DeclStmt":
                     for d in n["decls"]:
                         loc = (("loc", fid, d["name"]), ())
+                        if d.get("static"):
+                            # initialised once, before the program starts: keep whatever an earlier call left
+                            sroot = ("SL", f.file, f.name, d["name"])
+                            if not any(k_[0] == sroot for k_ in st.store):
+                                if "init" in d and f.nodes[d["init"]]["k"] != "InitListExpr":
+                                    st.store[(sroot, ())] = self.V(f, fid, d["init"], st)
+                                else:
+                                    st.store[(sroot, ("zeroinit",))] = INT(1)
+                            continue
                         if "init" in d and self._all_zero_init(f, d["init"]):
                             # struct/array local initialised with {0}
                             self.havoc_root(st.store, ("loc", fid, d["name"]))
@@ -649,8 +659,11 @@ class Explorer:
             return None
         if k == "DeclRefExpr":
             dk = n.get("dk")
-            if dk in ("local", "param", "slocal"):
+            if dk in ("local", "param"):
                 return (("loc", fid, n["name"]), ())
+            if dk == "slocal":
+                # a static local outlives the call: it is not part of the frame
+                return (("SL", f.file, f.name, n["name"]), ())
             if dk == "global":
                 return (("G", n.get("gfile"), n["name"]), ())
             return None
@@ -662,6 +675,9 @@ class Explorer:
                 bv = self.V(f, fid, n["c"][0], st)
                 if bv[0] == "ptr":
                     return (bv[1], bv[2] + comp)
+                if bv[0] == "null":
+                    # p->field with p known to be NULL on this path
+                    self.null_derefs.append((f.key, i, f.loc(i), f.src(i)))
                 return None
             bl = self.L(f, fid, n["c"][0], st)
             if bl is None:
